@@ -101,9 +101,6 @@ Proof.
   apply (forallb_hd line_dom); [reflexivity|]. now apply vlines_line_dom.
 Qed.
 
-Lemma cont_ok_no_linebreak l : cont_ok l = true -> line_dom l = true -> no_linebreak l = true.
-Proof. intros _. apply line_dom_no_linebreak. Qed.
-
 (** * okraw for the lines of an entry (str form: no boundary characters left) *)
 
 Lemma okraw_nolb ws l :
